@@ -243,6 +243,16 @@ func checkC12(c *Ctx) *report.Result {
 			t4 := c.cellInt(n3, tm, ".tima")
 			r.Ob("W-window", exactly(t4, tmaS), tag+": no further reload after the window", where, "TIMA three cycles after the overflow "+ai.ValueString(t4))
 		}
+		// (1b) TMA written during the 00 cycle: the reload that follows takes the new value (the modulo is read when the
+		// reload happens, not when the overflow did)
+		{
+			st, _, _ := prep(divWrite)
+			v, s := newV("tma-A")
+			w := doWrite(st, wTMA, v)
+			a, _ := step(w)
+			tima := c.cellInt(a, tm, ".tima")
+			r.Ob("W-window", exactly(tima, s), tag+": a TMA write in the 00 cycle is what the reload loads", firstPos(c, wTMA), "TIMA after cycle A "+ai.ValueString(tima)+"; documented: the value just written to TMA")
+		}
 		// (4) TIMA written during the 00 cycle: reload cancelled
 		{
 			st, _, _ := prep(divWrite)
